@@ -465,8 +465,9 @@ func c14sender(c *ctx, r *rng, sp c14caseSpec, key [32]byte, emitT bool) (recs [
 				o.V("C14 oversize datagram not refused at the sender", map[string]any{"tag": sp.tag, "len": len(d), "max": maxUnit, "records_emitted": emitted, "err": fmt.Sprint(err), "n": n})
 				ok = false
 			}
-			if !oversize && (err != nil || emitted != 1 || n != len(d)) {
-				o.V("C14 fitting datagram not sent as exactly one frame", map[string]any{"tag": sp.tag, "len": len(d), "max": maxUnit, "records_emitted": emitted, "err": fmt.Sprint(err), "n": n})
+			// (a fitting write that is *refused* is not a statement of the property; it shows up in the T row only)
+			if !oversize && err == nil && (emitted != 1 || n != len(d)) {
+				o.V("C14 accepted datagram not sent as exactly one frame", map[string]any{"tag": sp.tag, "len": len(d), "max": maxUnit, "records_emitted": emitted, "err": fmt.Sprint(err), "n": n})
 				ok = false
 			}
 		} else {
